@@ -184,6 +184,8 @@ class SimFS:
         self.tmp_names = list(world.get('tmp_names', []))
         self.tmp_count = 0
         self.modes = dict(world.get('modes', {}))   # path -> permission bits (unreadable files etc.)
+        self.resource_mtime = world.get('resource_mtime')
+        self.resource_root = os.path.realpath(os.environ.get('VERIF_REPO', '/repo') + '/src')
 
     # ---- helpers ---------------------------------------------------------------------------
     def _mkparents(self, path):
@@ -257,7 +259,10 @@ class SimFS:
         else:
             raise FileNotFoundError(errno.ENOENT, 'No such file or directory', p)
         t = self.mtimes.get(p, self.clock_base())
-        return os.stat_result((mode, self._ino(p), 99, 1, 1000, 1000, size, t, t, t))
+        ns = int(t * 1e9)
+        return os.stat_result((mode, self._ino(p), 99, 1, 1000, 1000, size, int(t), int(t), int(t)),
+                              {'st_atime': t, 'st_mtime': t, 'st_ctime': t, 'st_atime_ns': ns, 'st_mtime_ns': ns,
+                               'st_ctime_ns': ns})
 
     def clock_base(self):
         return float(int(self.clock))
@@ -268,7 +273,17 @@ class SimFS:
             return _real['stat'](path, dir_fd=dir_fd, follow_symlinks=follow_symlinks)
         n = self.norm(path)
         if not self.inside(n):
-            return _real['stat'](path, follow_symlinks=follow_symlinks)
+            st = _real['stat'](path, follow_symlinks=follow_symlinks)
+            if self.resource_mtime is not None and n.startswith(self.resource_root):
+                # installed package files carry whatever timestamp the installer gave them (epoch 0 in reproducible
+                # builds / store-based distributions): simulated, because outputs must not depend on it
+                t = float(self.resource_mtime)
+                lst = list(st)
+                lst[7] = lst[8] = lst[9] = int(t)
+                ns = int(t * 1e9)
+                st = os.stat_result(lst, {'st_atime': t, 'st_mtime': t, 'st_ctime': t, 'st_atime_ns': ns,
+                                          'st_mtime_ns': ns, 'st_ctime_ns': ns})
+            return st
         idx, f = self._event('stat' if follow_symlinks else 'lstat', n)
         if f:
             k = f.get('kind')
@@ -422,11 +437,20 @@ class SimFS:
             raise FileNotFoundError(errno.ENOENT, 'No such file or directory', n)
         self.modes[r] = statmod.S_IMODE(mode)
 
-    def utime(self, path, *a, **kw):
+    def utime(self, path, times=None, *, ns=None, **kw):
         n = self.norm(path)
         if not self.inside(n):
             raise PermissionError(errno.EACCES, 'Permission denied (outside sim)', n)
         self._event('utime', n)
+        r = self.resolve(n)
+        if r not in self.files and r not in self.dirs:
+            raise FileNotFoundError(errno.ENOENT, 'No such file or directory', n)
+        if ns is not None:
+            self.mtimes[r] = ns[1] / 1e9
+        elif times is not None:
+            self.mtimes[r] = float(times[1])
+        else:
+            self.mtimes[r] = self.clock
 
     def getcwd(self):
         return self.cwd
